@@ -1038,6 +1038,210 @@ m = M()
 NAMES = ['nan_eager', 'nan_default', 'M.meth', 'm.meth']
 '''
 
+# Section W (harness only, OUTSIDE the model's value domain: the model interns evaluated
+# annotations as numbers, two different numbers are never equal): annotation VALUES whose own ==
+# answers True to everything (unittest.mock.ANY, a wildcard / pattern object).  Such a value equals
+# "no annotation" (inspect.Parameter.empty) for the plain inspect objects in both operand orders,
+# so an unannotated parameter / signature and one carrying the wildcard reach the comparison of
+# the UPGRADED annotations, where one side is the EmptyAnnotation singleton.  Whatever that
+# comparison answers, the property demands a bool, the same for both operand orders, != its negation.
+class Wildcard(object):
+    """a hashable pattern object that matches anything"""
+
+    def __eq__(self, other):
+        return True
+
+    def __ne__(self, other):
+        return False
+
+    def __hash__(self):
+        return 0
+
+    def __repr__(self):
+        return 'Wildcard()'
+
+
+class WildcardEqOnly(object):
+    """only __eq__ is written (Python derives != from it), unhashable like mock.ANY"""
+
+    def __eq__(self, other):
+        return True
+
+    def __repr__(self):
+        return 'WildcardEqOnly()'
+
+
+def _wild_values():
+    from unittest import mock
+    return {'mock.ANY': mock.ANY, 'Wildcard': Wildcard(), 'WildcardEqOnly': WildcardEqOnly()}
+
+
+WILD_SRC = '''
+import functools
+from sigtools import modifiers, specifiers
+def bare(x, *, k=None): pass
+def bare2(x, *, k=None): pass
+def w_param(x: W, *, k=None): pass
+def w_kwo(x, *, k: W = None): pass
+def w_return(x, *, k=None) -> W: pass
+def w_all(x: W, *, k: W = None) -> W: pass
+def int_param(x: int, *, k=None): pass
+def int_return(x, *, k=None) -> int: pass
+@modifiers.annotate(W, x=W)
+def annotated(x, *, k=None): pass
+@modifiers.annotate(k=W)
+def annotated_k(x, *, k=None): pass
+@modifiers.annotate(W)
+def annotated_ret(x, *, k=None): pass
+@specifiers.forwards_to_function(bare)
+def fwd_plain(*args, **kwargs): pass
+@specifiers.forwards_to_function(bare)
+def fwd_ret(*args, **kwargs) -> W: pass
+@specifiers.forwards_to_function(w_all)
+def fwd_to_w(*args, **kwargs): pass
+def auto_plain(*args, **kwargs):
+    return bare(*args, **kwargs)
+def auto_ret(*args, **kwargs) -> W:
+    return bare(*args, **kwargs)
+def auto_to_w(*args, **kwargs):
+    return w_param(*args, **kwargs)
+class C:
+    def m_bare(self, x, *, k=None): pass
+    def m_w(self, x: W, *, k: W = None) -> W: pass
+c = C()
+part_bare = functools.partial(bare2)
+part_w = functools.partial(w_all)
+NAMES = ['bare', 'bare2', 'w_param', 'w_kwo', 'w_return', 'w_all', 'int_param', 'int_return', 'annotated',
+         'annotated_k', 'annotated_ret', 'fwd_plain', 'fwd_ret', 'fwd_to_w', 'auto_plain', 'auto_ret', 'auto_to_w',
+         'c.m_bare', 'c.m_w', 'part_bare', 'part_w']
+'''
+
+_WILD = {}
+
+
+def wild_modules():
+    """one module per (wildcard value, eager / postponed annotations)"""
+    if _WILD:
+        return _WILD
+    tmp = tempfile.mkdtemp(prefix='verif-c14-')
+    _TMP.append(tmp)
+    for i, (wk, wv) in enumerate(sorted(_wild_values().items())):
+        for tag, head in (('eager', ''), ('post', 'from __future__ import annotations')):
+            modname = 'c14_wild_%d_%s' % (i, tag)
+            path = os.path.join(tmp, modname + '.py')
+            with open(path, 'w') as f:
+                f.write(head + WILD_SRC)
+            spec = importlib.util.spec_from_file_location(modname, path)
+            mod = importlib.util.module_from_spec(spec)
+            mod.W = wv
+            sys.modules[modname] = mod
+            with warnings.catch_warnings():
+                warnings.simplefilter('ignore')
+                spec.loader.exec_module(mod)
+            _WILD[(wk, tag)] = mod
+    return _WILD
+
+
+WILD_FORMS = ('upgraded', 'plain', 'replace()', 'replace(annotations=wildcard)', 'replace(annotations=empty)')
+_WILD_OBJ = {}
+
+
+def wild_obj(spec):
+    """spec = [wildcard kind, 'eager'|'post', name, form, level]; level 'sig' or a parameter name.
+    -> the object (signature or parameter) as sigtools returns it / derived from it"""
+    spec = tuple(spec)
+    if spec in _WILD_OBJ:
+        return _WILD_OBJ[spec]
+    import sigtools
+    wk, tag, nm, form, level = spec
+    mod = wild_modules()[(wk, tag)]
+    obj = mod
+    for part in nm.split('.'):
+        obj = getattr(obj, part)
+    with warnings.catch_warnings():
+        warnings.simplefilter('ignore')
+        sig = sigtools.signature(obj)
+        if form == 'plain':
+            sig = plain_sig_of(sig)
+        elif form == 'replace()':
+            sig = sig.replace()
+        elif form == 'replace(annotations=wildcard)':
+            sig = sig.replace(parameters=[p.replace(annotation=mod.W) for p in sig.parameters.values()],
+                              return_annotation=mod.W)
+        elif form == 'replace(annotations=empty)':
+            sig = sig.replace(parameters=[p.replace(annotation=P.empty) for p in sig.parameters.values()],
+                              return_annotation=inspect.Signature.empty)
+    r = sig if level == 'sig' else sig.parameters[level]
+    _WILD_OBJ[spec] = r
+    return r
+
+
+def wild_specs(wk):
+    out = []
+    for tag in ('eager', 'post'):
+        mod = wild_modules()[(wk, tag)]
+        for nm in mod.NAMES:
+            for form in WILD_FORMS:
+                if form.startswith('replace(annotations') and nm not in ('bare', 'w_all', 'fwd_ret', 'annotated'):
+                    continue
+                if form == 'replace()' and nm not in ('bare', 'w_param', 'w_return', 'w_all', 'fwd_ret', 'annotated',
+                                                      'auto_ret', 'c.m_w'):
+                    continue
+                out.append([wk, tag, nm, form])
+    return out
+
+
+def wild_show(spec):
+    wk, tag, nm, form, level = spec
+    return '%s of sigtools.signature(%s)%s  [module with %s annotations, W = %s]' % (
+        'the signature' if level == 'sig' else 'parameter %r' % level, nm,
+        '' if form == 'upgraded' else ' as its plain inspect counterpart' if form == 'plain' else '.' + form,
+        'postponed' if tag == 'post' else 'eager', wk)
+
+
+def _wild_annotated(o):
+    """which of the annotation places of o hold something (not the empty marker)?"""
+    if isinstance(o, inspect.Signature):
+        return tuple([p.annotation is not P.empty for p in o.parameters.values()]
+                     + [o.return_annotation is not inspect.Signature.empty])
+    return (o.annotation is not P.empty,)
+
+
+def decide_wild_pair(sa, sb):
+    """-> [(key, what)]: bool answers, no exception, symmetry of == and of !=, != the negation of =="""
+    a, b = wild_obj(sa), wild_obj(sb)
+    res = [cmp_out(lambda: a == b), cmp_out(lambda: b == a), cmp_out(lambda: a != b), cmp_out(lambda: b != a)]
+    outs = [r[0] for r in res]
+    labels = ['a == b', 'b == a', 'a != b', 'b != a']
+    what = 'a = %s; b = %s' % (wild_show(sa), wild_show(sb))
+    bad = []
+    for lab, (o, msg) in zip(labels, res):
+        if o == 'R':
+            bad.append(('C14:eq-raises', '%s raised %s; %s' % (lab, msg, what)))
+        elif o == 'X':
+            bad.append(('C14:eq-not-bool', '%s %s; %s' % (lab, msg, what)))
+    if not bad:
+        if outs[0] != outs[1]:
+            bad.append(('C14:eq-asymmetric', 'a == b is %s but b == a is %s; %s' % (outs[0], outs[1], what)))
+        if outs[2] != outs[3]:
+            bad.append(('C14:eq-asymmetric', 'a != b is %s but b != a is %s; %s' % (outs[2], outs[3], what)))
+        if outs[2] == outs[0] or outs[3] == outs[1]:
+            bad.append(('C14:ne-not-negation', '(a == b, a != b, b == a, b != a) = %s; %s' % (outs, what)))
+    return outs, bad
+
+
+def wild_pairs(wk):
+    """all ordered-once pairs of objects of the same level (signature, parameter x, parameter k)
+    over the names and forms of both modules of one wildcard kind, at least one side upgraded"""
+    specs = wild_specs(wk)
+    for level in ('sig', 'x', 'k'):
+        for i, sa in enumerate(specs):
+            if sa[3] == 'plain':
+                continue
+            for sb in specs[i:] + [s_ for s_ in specs[:i] if s_[3] == 'plain']:
+                yield sa + [level], sb + [level]
+
+
 _FRESH = {}
 
 
@@ -1206,6 +1410,8 @@ def cleanup(ctx=None):
     for t in _TMP:
         shutil.rmtree(t, ignore_errors=True)
     del _TMP[:]
+    _WILD.clear()        # the wildcard modules are re-created (their source is needed by discovery)
+    _WILD_OBJ.clear()
 
 
 _REAL_CACHE = {}
@@ -2091,6 +2297,35 @@ def run(ctx, rep):
     rep.coverage['fresh_value_checks'] = n_fresh
     rep.coverage['fresh_retrieval_failed'] = fresh_failed
 
+    # ---- W: annotation values that compare equal to everything (harness only, no model)
+    n_wild = 0
+    wild_hist = {}
+    wild_failed = []
+    for wk in sorted(_wild_values()):
+        try:
+            pairs = list(wild_pairs(wk))
+            for sa, sb in pairs:
+                wild_obj(sa), wild_obj(sb)
+        except Exception as e:  # noqa: BLE001  (retrieval itself is C07's subject)
+            wild_failed.append('%s: %s: %s' % (wk, type(e).__name__, e))
+            continue
+        for sa, sb in pairs:
+            outs, bad = decide_wild_pair(sa, sb)
+            n_wild += 4
+            one_sided = _wild_annotated(wild_obj(sa)) != _wild_annotated(wild_obj(sb))
+            cls_ = ('one side unannotated where the other is annotated' if one_sided else 'same places annotated') \
+                + (', answered equal' if outs[0] == 'T' else ', answered unequal' if outs[0] == 'F' else ', other')
+            wild_hist[cls_] = wild_hist.get(cls_, 0) + 1
+            if one_sided and outs[0] == 'T':
+                rep.distinct.add(('W', tuple(sa), tuple(sb)))
+            for key, what in bad:
+                hist[key] = hist.get(key, 0) + 1
+                _viol(rep, key, what, {'kind': 'wild', 'a': sa, 'b': sb})
+    evaluations += n_wild
+    rep.coverage['wildcard_annotation_checks'] = n_wild
+    rep.coverage['wildcard_annotation_pairs'] = wild_hist
+    rep.coverage['wildcard_retrieval_failed'] = wild_failed
+
     # ---- B: str / bind / bind_partial
     bind_sigs = [(s, None) for s in sigs] + [(None, r) for r in reals if r['real'][2] != 'inspect']
     if ctx.quick:
@@ -2258,6 +2493,8 @@ def _replay_bad(r):
         return decide_fresh(r['module'], r['name'])[1]
     if kind == 'hostile':
         return decide_hostile(r['module'], r['name'])[1]
+    if kind == 'wild':
+        return decide_wild_pair(list(r['a']), list(r['b']))[1]
     if kind == 'sreplace':
         args = dict(r['args'])
         if 'sources' in args:
